@@ -154,6 +154,35 @@ Run(const std::string &fn, unsigned oS, unsigned oSIX, uint32_t ver)
       auto t = Decode(lock);
       CHECK(t.x == 0 && t.six == 0, "UpgradeToX: after the result guard died the word still has SIX=%lu X=%lu (grant never released)", t.six, t.x);
       if constexpr (std::is_same_v<L, OptimisticLock>) CHECK(t.ver == ((ver + 1U) & 0xffffffffU), "UpgradeToX: version %lu after release, expected %u", t.ver, ver + 1U);
+      {  // no gap: while the upgrade waits for a reader, a competing SIX request must not be granted
+        auto six2 = lock.LockSIX();
+        std::atomic<int> phase{0};
+        std::atomic<bool> competitor_got_six{false}, upgrade_done{false};
+        std::thread reader([&] {
+          auto s = lock.LockS();
+          phase.store(1);
+          while (phase.load() < 2) std::this_thread::yield();
+        });
+        while (phase.load() < 1) std::this_thread::yield();
+        std::thread competitor([&] {
+          auto c = lock.LockSIX();
+          if (!upgrade_done.load()) competitor_got_six.store(true);
+          phase.store(2);
+        });
+        std::thread releaser([&] {
+          std::this_thread::sleep_for(std::chrono::milliseconds(100));
+          int expected = 1;
+          phase.compare_exchange_strong(expected, 2);
+        });
+        Within(5000, [&] {
+          auto x2 = six2.UpgradeToX();
+          upgrade_done.store(true);
+          CHECK(!competitor_got_six.load(), "UpgradeToX: another thread obtained SIX between LockSIX and the end of the upgrade (conversion with a gap)");
+        });
+        reader.join();
+        competitor.join();
+        releaser.join();
+      }
       {  // non-owning source: non-owning result, no effect
         SIXG empty{};
         auto before = lock.lock_.load();
